@@ -6,7 +6,7 @@ CONSTANTS Variant = "ok"
  MCTs = {2, 3}
  MCVs = {1, 2}
  PolyMode = "few"
- OrderMode = "eager"
+ OrderMode = "free"
  MaxDup = 0
 INVARIANTS TypeOK NoFailure ThresholdIsT Agreement KeyedByShareIdx OwnShareMatches GroupKeyIsSum AnyTRecover AnyTSign BelowThresholdSafe
 CHECK_DEADLOCK TRUE
